@@ -219,7 +219,7 @@ theorem threshold_rel {a b : RoundR} (h : RRel a b) (pl : PlayerF) (e : Thresh) 
   · rw [h1, h2]; exact ERel.err
   · rw [h1, h2]; simp only []; rw [hab.store]
     split
-    · exact ERel.ok hab
+    · exact ERel.ok (hab.withStore _)
     · exact ERel.ok (hab.withStore _)
 
 theorem pvoteAccepted_rel {u v : PeriodR} (huv : PRel u v) (P : Params) (r p s : Nat) (x : VoteTracker.Vote) :
